@@ -34,7 +34,7 @@
 
 use self::errors::*;
 use crate::temporal::ym_duration::FeelYearsAndMonthsDuration;
-use crate::temporal::{weekday, FeelDateTime, FeelTime};
+use crate::temporal::{FeelDateTime, FeelTime};
 use crate::FeelNumber;
 use chrono::{DateTime, Datelike, FixedOffset, Local};
 use dmntk_common::DmntkError;
@@ -214,7 +214,14 @@ impl FeelDate {
   }
   ///
   pub fn weekday(&self) -> Option<u32> {
-    weekday(&FeelDateTime(self.clone(), FeelTime::utc(0, 0, 0, 0)))
+    // computed from the day number, so that it is defined for every valid year
+    let (year, month, day) = (self.0 as i64, self.1 as i64, self.2 as i64);
+    let year = if month <= 2 { year - 1 } else { year };
+    let day_of_year = (153 * ((month + 9) % 12) + 2) / 5 + day - 1; // counted from March 1st
+    let year_of_era = year.rem_euclid(400);
+    let day_of_era = year_of_era * 365 + year_of_era / 4 - year_of_era / 100 + day_of_year;
+    // a 400-year era is a whole number of weeks and March 1st of year 0 is a Wednesday
+    Some(((day_of_era + 2) % 7 + 1) as u32)
   }
   ///
   pub fn as_tuple(&self) -> (i32, u32, u32) {
